@@ -31,3 +31,18 @@ P['C14'] = dict(
     dict(name='H14B', src='C14_transport1d.cpp', covers=['precondition holds', 'end'], defines={'VCAP': 12, 'NS': 2, 'NK': 2, 'PRANGE': 3, 'QLIM': 1048576, 'FAMILY_B': None}, cfg=dict(fp='exact'),
          thorough=dict(defines={'NS': 3, 'NK': 2})),
   ])
+
+P['C13'] = dict(
+  design_ref='DESIGN.md section 3 C13',
+  level_text='For every instance inside the bounds the solver shows on the real TransportationProblem / successive-shortest-path code: solve() returns without throwing, allocations are non-negative, every source is fully allocated, no sink exceeds its capacity, and the total cost is minimal against an arbitrary symbolic competitor plan; toAssignment gives each source a sink receiving most of it; also after increaseCapacity. Family A: costs symbolic in the documented fixed-point range, quantities enumerated; family B: quantities symbolic, costs enumerated.',
+  text=dict(bounds=dict(quick='family A: <=2 sources x <=2 sinks, capacities/demands enumerated 1..2, integer costs symbolic in [0, INT_MAX/4/sinks]; family B: 2x2, costs enumerated 0..2, quantities symbolic 1..6 (the number of solver paths grows with the quantity range: the algorithm is pseudo-polynomial)',
+                        thorough='family A: <=3 sources x <=3 sinks, quantities 1..2; family B: 2x2 quantities symbolic 1..16, 3x2 quantities 1..6 costs 0..1'),
+            outside='more than 3 sources or sinks (the property quantifies up to 16 sinks); float cost constructor (scaling kernel only, see C07); quantities above the enumerated range in family A'),
+  assumptions=STD_ASSUME + ['precondition: total demand <= total capacity (possibly after increaseCapacity), positive demands/capacities, costs within [0, INT_MAX/4/nbSinks] as produced by costsFromIntegers', 'competitor plans are integral (sufficient: transportation polytope is integral)'],
+  harnesses=[
+    dict(name='H13A', src='C13_transport.cpp', covers=['precondition holds', 'end'], defines={'VCAP': 6, 'NS': 2, 'NK': 2, 'QMAX': 2, 'FAMILY_A': None}, cfg=dict(fp='exact'),
+         thorough=dict(defines={'NS': 3, 'NK': 3})),
+    dict(name='H13B', src='C13_transport.cpp', covers=['precondition holds', 'end'], defines={'VCAP': 6, 'NS': 2, 'NK': 2, 'CRANGE': 3, 'QLIM': 6, 'FAMILY_B': None}, cfg=dict(fp='exact', merge=False),
+         thorough=dict(defines={'QLIM': 16})),
+    dict(name='H13B3', src='C13_transport.cpp', tiers=('thorough',), covers=['precondition holds', 'end'], defines={'VCAP': 6, 'NS': 3, 'NK': 2, 'CRANGE': 2, 'QLIM': 6, 'FAMILY_B': None}, cfg=dict(fp='exact', merge=False)),
+  ])
